@@ -6,6 +6,8 @@ LEVEL_NOTE = ("Trusted base: CPython 3.12 (/venv/bin/python), eval/tokenize/frac
               "oracles under /verif/vf, and that sfc_models imports from the /repo working tree (asserted at "
               "start, recorded in evidence).")
 CLAIMS = {
+ 'C09': ("closed-form Fraction recursions of the book vs the exact re-solution of the emitted equations (equality, SIM/SIMEX1) and vs the real series (1e-6, PC; own stop rule, hand-coded SIM)",
+         "Held on K observed parameter vectors (on and off the 4-decimal grid), spending and rate paths, zero and non-zero consistent initial stocks: Y, T, YD, C, H/V, B_h, H_h of the bundled builders follow the book recursions.", "3/C09"),
  'C05': ("closure / canonical-name / placeholder scan of the emitted text against the object graph with an independent splitter; placeholder-embedding driver; value equality of emitted and sector-local forms",
          "Held on K observed models: every left-hand side canonical and unique, every right-hand-side name defined, no placeholder token in any code part, embedded names resolve to the variable they were requested for (sector, same-sector and model-level equations), emitted equations equal their local forms under valuations.", "3/C05"),
  'C08': ("differential execution over random linear extensions of the declaration order (all 720 orders of SIM in the thorough tier), exact comparison of the re-solved systems",
